@@ -71,6 +71,13 @@ def php_expr(e, top=False):
         return "get_class(%s)" % php_expr(e[1], True)
     if k == "same":
         return "(%s === %s)" % (php_expr(e[1]), php_expr(e[2]))
+    if k == "prop":
+        return "%s->n" % php_expr(e[1])
+    if k == "setprop":
+        t = "%s->n = %s" % (php_expr(e[1]), php_expr(e[2], True))
+        return t if top else "(" + t + ")"
+    if k == "hi":
+        return "%s->hi()" % php_expr(e[1])
     if k == "panic":
         return "verif_panic()"      # registered by harness/cmd/c05: a built-in whose Go body panics
     if k == "idx":
@@ -124,7 +131,7 @@ def php_stmt(s, ind=0):
         return p + "do {\n%s%s} while (%s);\n" % (php_block(s[1], ind + 1), p, php_expr(s[2], True))
     if k == "for":
         return p + "for (%s; %s; %s) {\n%s%s}\n" % (
-            ", ".join(php_expr(x, True) for x in s[1]), php_expr(s[2], True),
+            ", ".join(php_expr(x, True) for x in s[1]), "" if s[2] == ["lit", True] else php_expr(s[2], True),
             ", ".join(php_expr(x, True) for x in s[3]), php_block(s[4], ind + 1), p)
     if k == "foreach":
         kv = ("$%s => $%s" % (s[2], s[3])) if s[2] else "$" + s[3]
@@ -154,6 +161,11 @@ def php_stmt(s, ind=0):
         return out + "\n"
     if k == "throw":
         return p + "throw %s;\n" % php_expr(s[1], True)
+    if k == "ifinst":
+        out = p + "if ($%s instanceof %s) {\n%s%s}" % (s[1], s[2], php_block(s[3], ind + 1), p)
+        if s[4]:
+            out += " else {\n%s%s}" % (php_block(s[4], ind + 1), p)
+        return out + "\n"
     raise ValueError(k)
 
 
@@ -164,11 +176,17 @@ def php_prog(pr):
     for i in pr.get("ifaces", []):
         out += "interface %s%s {}\n" % (i[0], (" extends " + ", ".join(i[1])) if i[1] else "")
     for c in pr.get("classes", []):
-        out += "class %s extends %s%s {}\n" % (c[0], c[1], (" implements " + ", ".join(c[2])) if c[2] else "")
+        # classes derived directly from Exception declare the public property and the user method the
+        # identity observations use; their subclasses inherit both
+        body = ' public $n = 1; function hi() { return "hi" . $this->n; } ' if c[1] == "Exception" else ""
+        out += "class %s extends %s%s {%s}\n" % (c[0], c[1], (" implements " + ", ".join(c[2])) if c[2] else "", body)
+    fs = ""
     for f in pr["funcs"]:
         ps = ", ".join("$" + x + ("" if d is None else " = " + php_lit(d[0])) for x, d in f["params"])
-        out += "function %s(%s) {\n%s}\n" % (f["name"], ps, php_block(f["body"], 1))
-    return out + php_block(pr["main"], 0)
+        fs += "function %s(%s) {\n%s}\n" % (f["name"], ps, php_block(f["body"], 1))
+    if pr.get("funcs_last"):
+        return out + php_block(pr["main"], 0) + fs          # top-level declarations are hoisted
+    return out + fs + php_block(pr["main"], 0)
 
 
 def coq_value(v):
@@ -218,6 +236,12 @@ def coq_expr(e):
         return "(EClass %s)" % coq_expr(e[1])
     if k == "same":
         return "(ESame %s %s)" % (coq_expr(e[1]), coq_expr(e[2]))
+    if k == "prop":
+        return "(EProp %s)" % coq_expr(e[1])
+    if k == "setprop":
+        return "(ESetProp %s %s)" % (coq_expr(e[1]), coq_expr(e[2]))
+    if k == "hi":
+        return "(EHi %s)" % coq_expr(e[1])
     if k == "panic":
         return "EPanic"
     if k == "idx":
@@ -293,6 +317,8 @@ def coq_stmt(s):
         return "(STry %s %s %s)" % (coq_block(s[1]), cs, coq_block(s[3] or []))
     if k == "throw":
         return "(SThrow %s)" % coq_expr(s[1])
+    if k == "ifinst":
+        return "(SIfInst %s %s %s %s)" % (coq_string(s[1]), coq_string(s[2]), coq_block(s[3]), coq_block(s[4]))
     raise ValueError(k)
 
 
@@ -334,8 +360,8 @@ def kinds_of(x, acc):
 
 
 STMT_KINDS = {"expr", "echo", "push", "setidx", "if", "while", "dowhile", "for", "foreach", "switch", "break", "continue",
-              "return", "static", "try", "throw"}
-EXPR_KINDS = {"assign", "postinc", "call", "and", "or", "not", "arr", "new", "msg", "class", "same", "panic", "match", "idx", "idxinc", "closure", "callv"}
+              "return", "static", "try", "throw", "ifinst"}
+EXPR_KINDS = {"assign", "postinc", "call", "and", "or", "not", "arr", "new", "msg", "class", "same", "panic", "match", "idx", "idxinc", "closure", "callv", "prop", "setprop", "hi"}
 
 
 # ----------------------------------------------------------------------------- generator
@@ -616,7 +642,7 @@ class Gen:
             op = r.choice(["Add", "Mul"])
             rhs = var(r.choice(sc["ints"])) if r.random() < 0.5 else lit(r.randint(1, 3))
             return [["expr", ["assign", pn, ["bin", op, var(pn), rhs]]]]
-        if d >= 3 or c < 0.42:
+        if d >= 4 or (d == 3 and c < 0.8) or c < 0.42:
             return [self.simple(sc)]
         if c < 0.5:
             return self.guarded_jump(sc) or [self.simple(sc)]
@@ -626,6 +652,17 @@ class Gen:
             return [["if", self.bool_expr(sc), self.block(sc, d + 1), elifs, els]]
         inner = dict(sc, depth=sc["depth"] + 1)
         k = r.randint(1, 3)
+        if c < 0.66 and r.random() < 0.5:
+            # an endless loop left by break: while (true) / for (;;) / do .. while (true)
+            w = self.counter(sc, "e")
+            kind = r.choice(["while", "for", "dowhile"])
+            body = [["expr", ["postinc", w]], ["if", ["bin", "Ge", var(w), lit(k)], [["break", 1]], [], []]] + self.loop_body(inner, sc, d, w)
+            init = ["expr", ["assign", w, lit(0)]]
+            if kind == "while":
+                return [init, ["while", lit(True), body]]
+            if kind == "dowhile":
+                return [init, ["dowhile", body, lit(True)]]
+            return [["for", [["assign", w, lit(0)]], lit(True), [], body]]
         if c < 0.7:
             w = self.counter(sc, "w")
             body = [["expr", ["postinc", w]]] + self.loop_body(inner, sc, d, w)
@@ -677,11 +714,18 @@ class Gen:
     def switch(self, sc, d, fall=None):
         r = self.rng
         inner = dict(sc, depth=sc["depth"] + 1)
-        subj = self.int_expr(sc, 1)
-        vals = r.sample(range(0, 5), r.randint(1, 3))
+        if sc.get("str_init") and r.random() < 0.2:
+            # string subject, string labels
+            labels = ["p", "q", "zz", "r", "st", "p0", "q1"]
+            subj = var(sc["str"]) if r.random() < 0.6 else ["bin", "Concat", lit(r.choice(["p", "q"])), lit(r.randint(0, 1))]
+            vals = r.sample(labels, r.randint(1, 3))
+        else:
+            subj = self.int_expr(sc, 1)
+            vals = r.sample(range(0, 5), r.randint(1, 3))
         clauses = [["case", lit(v), None] for v in vals]
         if r.random() < 0.2:
-            clauses.insert(r.randint(0, len(clauses) - 1), ["case", lit(r.choice([5, 6])), "EMPTY"])      # case 5: case k: grouping
+            clauses.insert(r.randint(0, len(clauses) - 1),
+                           ["case", lit(r.choice([5, 6]) if isinstance(vals[0], int) else "grp"), "EMPTY"])      # case 5: case k: grouping
         if r.random() < 0.6:
             clauses.insert(r.randint(0, len(clauses)), ["default", None])
         for idx, cl in enumerate(clauses):
@@ -781,7 +825,7 @@ class Gen:
         sc["callable"] = [f for f in self.funcs if not f[5]]
         sc["procs"] = [f for f in self.funcs if f[5]]
         main = self.prologue(sc) + self.block(sc, 0, r.randint(2, 5))
-        return {"funcs": funcs, "closures": self.closures, "main": main}
+        return {"funcs": funcs, "closures": self.closures, "main": main, "funcs_last": bool(funcs) and r.random() < 0.3}
 
 
 def nest_program(outer, inner, jump, level, before):
@@ -893,6 +937,8 @@ def recursion_programs():
             main = [["expr", ["assign", "n", lit(40)]], tag(name + "=", call("f", lit(depth))), tag(" n=", n),
                     tag(" again=", call("f", lit(depth - 1)))]
             out.append({"funcs": [f], "main": main})
+    deep = {"name": "f", "params": [["n", None]], "body": shapes["local_then_add"]}
+    out.append({"funcs": [deep], "main": [tag("deep=", call("f", lit(60)))], "funcs_last": True})
     # mutual recursion (the second function is declared after the first one that calls it)
     ev = {"name": "ev", "params": [["n", None]],
           "body": [["if", ["bin", "Eq", n, lit(0)], [["return", lit(1)]], [], []],
@@ -1171,6 +1217,7 @@ class Probe:
         self.classes = {c[0]: c for c in pr.get("classes", [])}
         self.ifaces = {i[0]: i for i in pr.get("ifaces", [])}
         self.nextid = 0
+        self.heap = {}
         self.statics = {}
         self.steps = budget
         self.pr = pr
@@ -1310,6 +1357,19 @@ class Probe:
             if not isinstance(v, tuple):
                 raise _Thr(("err", "not an object"))
             return v[3] if k == "msg" else v[2]
+        if k in ("prop", "hi"):
+            v = self.ev(e[1], fr)
+            if not (isinstance(v, tuple) and v[0] == "obj"):
+                raise _Thr(("err", "not an object"))
+            n = self.heap.get(v[1], 1)
+            return n if k == "prop" else "hi" + self.tostr(n)
+        if k == "setprop":
+            w = self.ev(e[2], fr)
+            v = self.ev(e[1], fr)
+            if not (isinstance(v, tuple) and v[0] == "obj"):
+                raise _Thr(("err", "not an object"))
+            self.heap[v[1]] = w
+            return w
         if k == "same":
             a, b = self.ev(e[1], fr), self.ev(e[2], fr)
             if isinstance(a, tuple) and isinstance(b, tuple):
@@ -1448,6 +1508,10 @@ class Probe:
             if (fr["fn"], s[1]) not in self.statics:
                 self.statics[(fr["fn"], s[1])] = s[2]
             fr["static"].add(s[1])
+        elif k == "ifinst":
+            v = self.rd(fr, s[1])
+            yes = isinstance(v, tuple) and v[0] == "obj" and self.catches(s[2], v)
+            self.block(s[3] if yes else s[4], fr)
         elif k == "throw":
             v = self.ev(s[1], fr)
             raise _Thr(v if isinstance(v, tuple) else ("err", self.tostr(v)))
@@ -1553,7 +1617,8 @@ def main(ck):
         "call frames are name-indexed maps standing for the per-call slot vectors (parser/scope_manager.go index assignment is not modelled)",
         "statement result values (the value beside the control) are not modelled: unobservable in the core since /repo 110cdb4",
         "harness/cmd/c02 (Go, vrun.RunString on a fresh VM per program) and checks/C02.py (generator, PHP and Coq printers)",
-        "not modelled: generators/yield, references, closures, classes, goto, foreach over objects/iterators, by-reference foreach",
+        "not modelled: generators/yield, references (use (&$x), foreach by reference), classes and methods, goto, foreach over objects/iterators, "
+        "static initialisers other than literals, operators outside the typed domain (mixed-kind switch labels)",
     ]
     ck.prove()
     binary, out = ck.go_build("c02")
@@ -1694,6 +1759,6 @@ def main(ck):
                    "{jump before/after the echo} (200), 18 boxed-integer aliasing probes, 25 recursion probes (depth up to 8, reads after the recursive call, "
                    "mutual recursion, recursion in loops), 20 parameter-aliasing probes (accumulating a by-value / defaulted parameter "
                    "in for/while/foreach bodies, caller's variable and default re-read afterwards), seeded random typed programs (functions with defaults, recursion, statics; "
-                   "nesting <= 5), and a separate stream of small programs in the recorded defect classes; non-trivial = distinct "
+                   "loops/branches nested up to 5 levels, endless loops left by break, string and int switches with fall-through, functions printed before or after the main code), and a separate stream of small programs in the recorded defect classes; non-trivial = distinct "
                    "program containing at least one loop, switch or call",
               traces=len(terms))
